@@ -759,9 +759,12 @@ func (w *gcWorld) checkPersistent() {
 		if s.err != nil || s.retEv == 0 || s.cancelled || s.neverSettle {
 			continue
 		}
+		// deliveries that were acked (a delivery the subscriber nacked comes again, which is not a second message)
 		got := map[string]int{}
 		for _, d := range s.deliveries {
-			got[d.uuid]++
+			if d.acked {
+				got[d.uuid]++
+			}
 		}
 		// how often each UUID was successfully published (a UUID may be published more than once)
 		pubs := map[string]int{}
@@ -779,14 +782,14 @@ func (w *gcWorld) checkPersistent() {
 				r.Fail("C11.R1", "a persistent subscription missed a successfully published message",
 					"sub %d (subscribed ev %d..%d) received %s %d times, it was published %d times", s.id, s.invEv, s.retEv, rec.uuid, n, pubs[rec.uuid])
 			case n > pubs[rec.uuid]:
-				r.Fail("C11.R2", "a persistent subscription that always acks received a message more than once",
+				r.Fail("C11.R2", "a persistent subscription received (and acked) a message more than once",
 					"sub %d (subscribed ev %d..%d) received %s %d times (published %d times, ev %d..%d)", s.id, s.invEv, s.retEv, rec.uuid, n, pubs[rec.uuid], rec.invEv, rec.retEv)
 			case n == pubs[rec.uuid]:
 			case n == 0:
 				r.Fail("C11.R1", "a persistent subscription missed a successfully published message",
 					"sub %d (subscribed ev %d..%d) never received %s (published ev %d..%d)", s.id, s.invEv, s.retEv, rec.uuid, rec.invEv, rec.retEv)
 			case n > 1:
-				r.Fail("C11.R2", "a persistent subscription that always acks received a message more than once",
+				r.Fail("C11.R2", "a persistent subscription received (and acked) a message more than once",
 					"sub %d (subscribed ev %d..%d) received %s %d times (published ev %d..%d)", s.id, s.invEv, s.retEv, rec.uuid, n, rec.invEv, rec.retEv)
 			}
 		}
@@ -840,6 +843,9 @@ func init() {
 	c11 := gcOpts{prop: "C11", persistent: 1, lateSubs: true, fine: true}
 	Register(&Scenario{Prop: "C11", Name: "persistent-replay", Setup: gcSetup(c11), Body: gcBody(c11), Real: gcReal, Stubs: gcStubs, Weight: 2})
 	// sibling subscriptions that come and go (cancelled ones are exempt) must not disturb the exactly-once replay of the others
+	// subscribers that nack (a few times) before they ack: every message is still acked exactly once by every subscription
+	c11c := gcOpts{prop: "C11", persistent: 1, lateSubs: true, fine: true, nacks: true}
+	Register(&Scenario{Prop: "C11", Name: "persistent-replay-with-nacks", Setup: gcSetup(c11c), Body: gcBody(c11c), Real: gcReal, Stubs: gcStubs, Weight: 1})
 	c11b := gcOpts{prop: "C11", persistent: 1, lateSubs: true, fine: true, cancels: true, subChurn: true}
 	Register(&Scenario{Prop: "C11", Name: "persistent-replay-with-churn", Setup: gcSetup(c11b), Body: gcBody(c11b), Real: gcReal, Stubs: gcStubs, Weight: 1})
 }
